@@ -49,7 +49,9 @@ struct Row { long x; long long est, lb, ub; };
 // wide profile (64-bit weights): numbers are logged as 4 little-endian limbs of 20 bits (spec/WideNum.tla), else as plain integers
 static bool g_wide = false;
 static std::string num(long long v) {
-  if (!g_wide) return std::to_string(v);
+  // outside the wide profile every logged integer stays inside TLC's range: larger magnitudes - which the drivers never produce on
+  // purpose - are folded into [2e9, 2e9 + 1e6] (resp. its negative), so that they still disagree with the model
+  if (!g_wide) return std::to_string(v > 2000000000LL ? 2000000000LL + v % 999983LL : v < -2000000000LL ? -2000000000LL - (-(v + 1)) % 999983LL : v);
   std::string s = "[";
   for (int k = 0; k < 4; k++) { if (k) s += ","; s += std::to_string((long long)(((unsigned long long)v >> (20 * k)) & 0xfffffULL)); }
   return s + "]";
@@ -64,8 +66,19 @@ static Ev& img_tok(Ev& e, const char* key, const void* p, size_t n) {
   return e.str(key, buf);
 }
 
-template<class T> struct Driver {
-  using Sk = frequent_items_sketch<T>;
+// W: the weight type.  Floating-point W is driven with FRACTIONAL weights (multiples of 1/4, exactly representable; totals stay
+// far below the mantissa) and every weight / counter / bound / total is logged in units of 1/SCALE (a unit conversion: the
+// contract's clauses are linear, so they are evaluated in exact integer arithmetic on quarters)
+template<class T, class W = uint64_t> struct Driver {
+  using Sk = frequent_items_sketch<T, W>;
+  static constexpr bool FLT = std::is_floating_point<W>::value;
+  static constexpr long SCALE = FLT ? 4 : 1;
+  static const char* wname() { return FLT ? (sizeof(W) == 4 ? "f32" : "f64") : (std::is_signed<W>::value ? "i64" : "u64"); }
+  static long long tol(W v) {        // observed value -> logged units; anything not an exact multiple of a unit is logged as such
+    if (FLT) { double x = (double)v * SCALE; if (!std::isfinite(x) || std::fabs(x) > 4e18) return -7777777; return (long long)std::llround(x) == x ? (long long)x : -8888888; }
+    return (long long)v;
+  }
+  static W tow(long long units) { return FLT ? (W)((double)units / SCALE) : (W)units; }
   static const int NS = 4, NB = 3;
   vt::Rng& g;
   int serde_pct;
@@ -90,7 +103,7 @@ template<class T> struct Driver {
   }
   template<class V> std::vector<Row> conv(const V& v) {
     std::vector<Row> r;
-    for (auto& row : v) r.push_back(Row{index_of(row.get_item()), (long long)row.get_estimate(), (long long)row.get_lower_bound(), (long long)row.get_upper_bound()});
+    for (auto& row : v) r.push_back(Row{index_of(row.get_item()), tol(row.get_estimate()), tol(row.get_lower_bound()), tol(row.get_upper_bound())});
     return r;
   }
   std::vector<Row> rows(const Sk& s) { return conv(s.get_frequent_items(NO_FALSE_NEGATIVES, 0)); }
@@ -137,7 +150,7 @@ template<class T> struct Driver {
   }
   std::string xfields;     // expected design-model state of a replayed behaviour, appended to the next mutating event
   Ev& scal(Ev& e, int i) {
-    e.raw("off", num((long long)sk[i]->get_maximum_error())).raw("total", num((long long)sk[i]->get_total_weight())).i("n", sk[i]->get_num_active_items())
+    e.raw("off", num(tol(sk[i]->get_maximum_error()))).raw("total", num(tol(sk[i]->get_total_weight()))).i("n", sk[i]->get_num_active_items())
      .i("lgCur", lgcur(*sk[i]));
     if (restored[i]) e.b("restored", true);
     if (!xfields.empty()) { e.s += xfields; xfields.clear(); }
@@ -146,9 +159,10 @@ template<class T> struct Driver {
   // table (iteration) order of a sketch = order of the items in its serialized image: the order in which merge() replays them
   std::vector<long> table_order(const Sk& s) {
     auto b = s.serialize(); std::vector<uint8_t> img(b.begin(), b.end()); std::vector<long> ord;
-    if (img.size() < 32) return ord;
+    const size_t PRE = 16 + 2 * sizeof(W);      // preamble long, counts long, total weight (W), offset (W)
+    if (img.size() < PRE) return ord;
     uint32_t n; memcpy(&n, img.data() + 8, 4);
-    size_t pos = 32 + 8 * (size_t)n;
+    size_t pos = PRE + sizeof(W) * (size_t)n;
     for (uint32_t k = 0; k < n && pos <= img.size(); k++) {
       std::string it; size_t used = Codec<T>::parse(img.data() + pos, img.size() - pos, it);
       if (!used) break;
@@ -162,7 +176,7 @@ template<class T> struct Driver {
     if (fixed_start < 0 && g.chance(30)) { sk[i].reset(new Sk((uint8_t)lg)); st = Sk::LG_MIN_MAP_SIZE; }   // documented default start size
     else sk[i].reset(new Sk((uint8_t)lg, (uint8_t)st));
     lgmax[i] = lg; restored[i] = false; prev[i].clear(); ver[i]++;
-    Ev e("New"); e.i("id", i).i("lgMax", lg).i("lgStart", st).str("type", Codec<T>::name()); scal(e, i).emit();
+    Ev e("New"); e.i("id", i).i("lgMax", lg).i("lgStart", st).str("type", Codec<T>::name()).str("wt", wname()); scal(e, i).emit();
   }
   long draw_item() {
     switch (profile) {
@@ -183,24 +197,47 @@ template<class T> struct Driver {
       return g.range(1, 1000);
     }
     if (profile == 3) return 1;
+    if (FLT && sizeof(W) == 4) { int c = (int)g.below(100); return c < 50 ? 1 : c < 85 ? g.range(1, 12) : g.range(1, 400); }
     if (bigseg) return g.chance(70) ? 1 : g.range(1, 10);
     int c = (int)g.below(100);
     if (c < 60) return 1; if (c < 85) return g.range(1, 10); if (c < 97) return g.range(1, 1000); return g.range(1000, 20000);
   }
   bool do_update(int i, long x, long w, bool rv) {
-    long long off0 = (long long)sk[i]->get_maximum_error();
+    long long off0 = tol(sk[i]->get_maximum_error());
     T v = item(x);
-    if (rv) sk[i]->update(std::move(v), (uint64_t)w); else sk[i]->update(v, (uint64_t)w);
+    if (rv) sk[i]->update(std::move(v), tow(w)); else sk[i]->update(v, tow(w));
     ver[i]++;
     T q = item(x);
     Ev e(w == 0 ? "UpdateZero" : "Update");
     e.i("id", i).i("x", x).raw("w", num(w)).b("rv", rv);
-    delta(scal(e, i).raw("lbx", num((long long)sk[i]->get_lower_bound(q))), i).emit();
-    return (long long)sk[i]->get_maximum_error() != off0;
+    delta(scal(e, i).raw("lbx", num(tol(sk[i]->get_lower_bound(q)))), i).emit();
+    return tol(sk[i]->get_maximum_error()) != off0;
+  }
+  // an update the documentation says is refused ("a negative count will throw an exception"; NaN / infinite weights for floating
+  // W): every overload, for signed and floating W.  The call must throw and leave every observable unchanged.
+  static constexpr bool CAN_REFUSE = FLT || std::is_signed<W>::value;
+  void do_refused(int i, long x, bool rv) {
+    W bad; const char* kind;
+    int c = (int)g.below(FLT ? 6 : 2);
+    switch (c) {
+      case 0: bad = tow(-1); kind = "minus-one-unit"; break;
+      case 1: bad = tow(-(long long)g.range(2, 1000000)); kind = "negative"; break;
+      case 2: bad = (W)std::nan(""); kind = "nan"; break;
+      case 3: bad = (W)INFINITY; kind = "inf"; break;
+      case 4: bad = (W)-INFINITY; kind = "minus-inf"; break;
+      default: bad = (W)-1e-30; kind = "tiny-negative"; break;
+    }
+    std::string outcome = "ok";
+    T v = item(x);
+    try { if (rv) sk[i]->update(std::move(v), bad); else sk[i]->update(v, bad); } catch (const std::exception&) { outcome = "throw"; }
+    ver[i]++;
+    Ev e("UpdateRefused"); e.i("id", i).i("x", x).str("kind", kind).b("rv", rv).str("outcome", outcome);
+    delta(scal(e, i), i).emit();
   }
   // logged integers must stay below 2^31 (and 7 * total inside the contract): a merge tree that would exceed the cap restarts the target
-  long long total_cap() const { return wide ? (1LL << 61) : 50000000LL; }
-  bool fits(int dst, long long add) { return (long long)sk[dst]->get_total_weight() + add <= total_cap(); }
+  // float: 24-bit mantissa, quarters exact below 2^22 -> 4e6 units
+  long long total_cap() const { return wide ? (1LL << 61) : (FLT && sizeof(W) == 4) ? 4000000LL : 50000000LL; }
+  bool fits(int dst, long long add) { return tol(sk[dst]->get_total_weight()) + add <= total_cap(); }
   void do_merge(int dst, int src, bool rv) {
     auto ord = table_order(*sk[src]);
     if (rv) sk[dst]->merge(std::move(*sk[src])); else sk[dst]->merge(*sk[src]);
@@ -226,10 +263,10 @@ template<class T> struct Driver {
     for (long x = U + 1; x <= U + 5; x++) probe.push_back(x);       // never offered to any sketch
     std::sort(probe.begin(), probe.end()); probe.erase(std::unique(probe.begin(), probe.end()), probe.end());
     std::vector<Row> q;
-    for (long x : probe) { T v = item(x); q.push_back(Row{x, (long long)s.get_estimate(v), (long long)s.get_lower_bound(v), (long long)s.get_upper_bound(v)}); }
+    for (long x : probe) { T v = item(x); q.push_back(Row{x, tol(s.get_estimate(v)), tol(s.get_lower_bound(v)), tol(s.get_upper_bound(v))}); }
     e.raw("q", rows_json(q));
     // thresholds: 0, around the maximum error, quantiles of the counters, the largest bound, the total
-    long long off = (long long)s.get_maximum_error(), tot = (long long)s.get_total_weight();
+    long long off = tol(s.get_maximum_error()), tot = tol(s.get_total_weight());
     std::vector<long long> th = {0, off, off + 1, tot};
     if (off > 0) { th.push_back(off - 1); th.push_back(off / 2); }
     if (!r.empty()) { th.push_back(r[r.size() / 2].lb); th.push_back(r[r.size() / 2].ub); th.push_back(r[r.size() / 10].lb); th.push_back(r[0].ub); th.push_back(r[0].ub - 1); th.push_back(r[0].lb - 1); }
@@ -239,7 +276,7 @@ template<class T> struct Driver {
       bool nfn = g.chance(50); bool dflt = (k == nq);
       long long t = dflt ? off : std::max(0LL, th[g.below(th.size())]);
       auto res = dflt ? conv(s.get_frequent_items(nfn ? NO_FALSE_NEGATIVES : NO_FALSE_POSITIVES))
-                      : conv(s.get_frequent_items(nfn ? NO_FALSE_NEGATIVES : NO_FALSE_POSITIVES, (uint64_t)t));
+                      : conv(s.get_frequent_items(nfn ? NO_FALSE_NEGATIVES : NO_FALSE_POSITIVES, tow(t)));
       std::vector<long long> it, es, lb, ub;
       for (auto& x : res) { it.push_back(x.x); es.push_back(x.est); lb.push_back(x.lb); ub.push_back(x.ub); }
       Ev f("x"); f.s = "{\"t\":\""; f.s += nfn ? "NFN" : "NFP"; f.s += "\"";
@@ -250,20 +287,21 @@ template<class T> struct Driver {
   }
   // canonical form of an image: preamble + (weight, item) pairs sorted by item bytes (the image stores a hash table in table order)
   static std::vector<uint8_t> canon(const std::vector<uint8_t>& img) {
-    if (img.size() < 32) return img;
+    const size_t PRE = 16 + 2 * sizeof(W);
+    if (img.size() < PRE) return img;
     uint32_t n; memcpy(&n, img.data() + 8, 4);
-    size_t pos = 32 + 8 * (size_t)n;
+    size_t pos = PRE + sizeof(W) * (size_t)n;
     if (pos > img.size()) return img;
     std::vector<std::pair<std::string, std::string>> pairs;
     for (uint32_t k = 0; k < n; k++) {
       std::string it; size_t used = Codec<T>::parse(img.data() + pos, img.size() - pos, it);
       if (!used) return img;
-      pairs.emplace_back(std::string((const char*)img.data() + pos, used), std::string((const char*)img.data() + 32 + 8 * k, 8));
+      pairs.emplace_back(std::string((const char*)img.data() + pos, used), std::string((const char*)img.data() + PRE + sizeof(W) * k, sizeof(W)));
       pos += used;
     }
     if (pos != img.size()) return img;
     std::sort(pairs.begin(), pairs.end());
-    std::vector<uint8_t> out(img.begin(), img.begin() + 32);
+    std::vector<uint8_t> out(img.begin(), img.begin() + PRE);
     for (auto& p : pairs) { out.insert(out.end(), p.second.begin(), p.second.end()); out.insert(out.end(), p.first.begin(), p.first.end()); }
     return out;
   }
@@ -316,7 +354,7 @@ template<class T> struct Driver {
   // big: one long segment on a map beyond the purge sample size (lg_max 11: 1537 active entries at a purge, sampled median)
   void segment(long seg, long events, int maxlg, bool big = false, bool wide_ = false) {
     wide = wide_; g_wide = wide_;
-    Ev("Begin").i("seg", seg).str("type", Codec<T>::name()).b("wide", wide).emit();
+    Ev("Begin").i("seg", seg).str("type", Codec<T>::name()).str("wt", wname()).b("wide", wide).emit();
     rev.clear();
     for (int i = 0; i < NS; i++) { sk[i].reset(); prev[i].clear(); ver[i] = 0; restored[i] = false; }
     for (int b = 0; b < NB; b++) blive[b] = false;
@@ -348,7 +386,7 @@ template<class T> struct Driver {
         int src = pending_merge_src; pending_merge_src = -1;
         int dst = (src + 1 + (int)g.below(NS - 1)) % NS;
         if (sk[src]) {
-          if (!sk[dst] || !fits(dst, (long long)sk[src]->get_total_weight())) mk(dst, lgdraw());
+          if (!sk[dst] || !fits(dst, tol(sk[src]->get_total_weight()))) mk(dst, lgdraw());
           do_merge(dst, src, g.chance(30)); continue;
         }
       }
@@ -359,7 +397,11 @@ template<class T> struct Driver {
       int upd = 100 - 14 - 2 * serde_pct;
       // long segment on a large map: observations, copies and images are large, take one in seven
       if (big && op >= upd && !(op >= upd + 5 && op < upd + 11) && !g.chance(15)) continue;
-      if (op < upd) {
+      if (CAN_REFUSE && op < upd && g.chance(4)) {
+        long x = draw_item(); bool rv = g.chance(50);
+        do_refused(i, x, rv);
+        if (twin_left > 0) { do_refused(twin_b, x, rv); twin_obs(); }
+      } else if (op < upd) {
         long x = draw_item(); long w = g.chance(3) ? 0 : draw_weight(); bool rv = g.chance(30);
         if (!fits(i, w)) { if (twin_left > 0) continue; mk(i, lgdraw()); }
         bool purged = do_update(i, x, w, rv);
@@ -370,7 +412,7 @@ template<class T> struct Driver {
         if (twin_left > 0) obs(twin_b);
       } else if (op < upd + 11) {
         int j = (int)g.below(NS);
-        if (j != i && sk[j] && j != twin_b && fits(i, (long long)sk[j]->get_total_weight())) {
+        if (j != i && sk[j] && j != twin_b && fits(i, tol(sk[j]->get_total_weight()))) {
           bool rv = twin_left == 0 && g.chance(35);
           if (twin_left > 0) { do_merge(i, j, false); do_merge(twin_b, j, false); twin_obs(); }
           else do_merge(i, j, rv);
@@ -408,7 +450,7 @@ template<class T> struct Driver {
   // paths (bytes, stream): serialize (bytes with a header and stream forms), restore, then continue original and restored in
   // lock-step with the same updates (through resizes and purges) and merges, and use the restored sketch as a merge operand.
   void edge_segment(long seg) {
-    Ev("Begin").i("seg", seg).str("type", Codec<T>::name()).b("edge", true).emit();
+    Ev("Begin").i("seg", seg).str("type", Codec<T>::name()).str("wt", wname()).b("edge", true).emit();
     rev.clear();
     for (int i = 0; i < NS; i++) { sk[i].reset(); prev[i].clear(); ver[i] = 0; restored[i] = false; }
     for (int b = 0; b < NB; b++) blive[b] = false;
@@ -430,6 +472,7 @@ template<class T> struct Driver {
       for (int k = 0; k < 30; k++) {
         if (k == 4 || k == 18) { do_merge(0, 2, false); do_merge(1, 2, false); twin_obs(); continue; }
         if (k == 10) { ser(1, (b + 1) % NB); obs(0); obs(1); continue; }          // the restored object serializes like the original
+        if (CAN_REFUSE && (k == 2 || k == 12 || k == 22)) { long x = g.range(1, U); bool rv = k != 12; do_refused(0, x, rv); do_refused(1, x, rv); twin_obs(); continue; }
         long x = g.range(1, U), w = g.chance(5) ? 0 : g.range(1, 9); bool rv = g.chance(30);
         do_update(0, x, w, rv); do_update(1, x, w, rv); twin_obs();
       }
@@ -442,7 +485,7 @@ template<class T> struct Driver {
     }
   }
   void slot_segment(long seg) {
-    Ev("Begin").i("seg", seg).str("type", Codec<T>::name()).b("slots", true).emit();
+    Ev("Begin").i("seg", seg).str("type", Codec<T>::name()).str("wt", wname()).b("slots", true).emit();
     rev.clear();
     for (int i = 0; i < NS; i++) { sk[i].reset(); prev[i].clear(); ver[i] = 0; restored[i] = false; }
     for (int b = 0; b < NB; b++) blive[b] = false;
@@ -486,7 +529,7 @@ template<class T> struct Driver {
     }
     for (int k = 0; k < 6; k++) {
       int a = (int)g.below(NS), b = (int)g.below(NS);
-      if (a != b && sk[a] && sk[b] && fits(a, (long long)sk[b]->get_total_weight())) { do_merge(a, b, false); obs(a); }
+      if (a != b && sk[a] && sk[b] && fits(a, tol(sk[b]->get_total_weight()))) { do_merge(a, b, false); obs(a); }
     }
   }
   void start_twin(int a, int b) { twin_a = a; twin_b = b; twin_left = g.range(8, 40); twin_obs(); }
@@ -502,14 +545,14 @@ static std::string jarr(const std::string& ln, const char* key) {
   std::string k = std::string("\"") + key + "\":["; size_t p = ln.find(k); if (p == std::string::npos) return "[]";
   size_t q = ln.find(']', p); return ln.substr(p + k.size() - 1, q - (p + k.size() - 1) + 1);
 }
-template<class T> static void replay_file(vt::Rng& g, const std::string& path, long seg) {
+template<class T, class W> static void replay_file(vt::Rng& g, const std::string& path, long seg) {
   std::ifstream in(path); std::string ln; std::vector<std::string> steps;
   while (std::getline(in, ln)) if (ln.size() > 2) steps.push_back(ln);
   if (steps.empty()) return;
-  Driver<T> d(g, 0);
-  Ev("Begin").i("seg", seg).str("type", Codec<T>::name()).b("generated", true).emit();
+  Driver<T, W> d(g, 0);
+  Ev("Begin").i("seg", seg).str("type", Codec<T>::name()).str("wt", Driver<T, W>::wname()).b("generated", true).emit();
   d.rev.clear(); d.U = 14;
-  for (int i = 0; i < Driver<T>::NS; i++) { d.sk[i].reset(); d.prev[i].clear(); d.ver[i] = 0; d.restored[i] = false; }
+  for (int i = 0; i < Driver<T, W>::NS; i++) { d.sk[i].reset(); d.prev[i].clear(); d.ver[i] = 0; d.restored[i] = false; }
   d.mk(0, (int)jint(steps[0], "lgMax"), 3);
   long n = 0;
   for (auto& st : steps) {
@@ -520,6 +563,20 @@ template<class T> static void replay_file(vt::Rng& g, const std::string& path, l
     if (++n % 15 == 0) d.obs(0);
   }
   d.obs(0);
+}
+
+// item type x weight type; every combination occurs within 8 consecutive (segment + seed) values
+template<class F> static void with_types(uint64_t k, vt::Rng& g, int sp, F f) {
+  switch (k % 8) {
+    case 0: { Driver<int64_t, uint64_t> d(g, sp); f(d); break; }
+    case 1: { Driver<std::string, uint64_t> d(g, sp); f(d); break; }
+    case 2: { Driver<int64_t, int64_t> d(g, sp); f(d); break; }
+    case 3: { Driver<std::string, double> d(g, sp); f(d); break; }
+    case 4: { Driver<int64_t, float> d(g, sp); f(d); break; }
+    case 5: { Driver<std::string, int64_t> d(g, sp); f(d); break; }
+    case 6: { Driver<int64_t, double> d(g, sp); f(d); break; }
+    default: { Driver<std::string, float> d(g, sp); f(d); }
+  }
 }
 
 int main(int argc, char** argv) {
@@ -541,23 +598,30 @@ int main(int argc, char** argv) {
     if (DIR* dd = opendir(rdir)) { while (dirent* e = readdir(dd)) { std::string n = e->d_name; if (n.size() > 7 && n.substr(n.size() - 7) == ".ndjson") files.push_back(n); } closedir(dd); }
     std::sort(files.begin(), files.end());
     for (size_t k = 0; k < files.size(); k++) if ((long)(k % parts) == part) {
-      if (k % 2 == 0) replay_file<int64_t>(g, std::string(rdir) + "/" + files[k], (long)k); else replay_file<std::string>(g, std::string(rdir) + "/" + files[k], (long)k);
+      std::string f = std::string(rdir) + "/" + files[k];
+      switch (k % 4) {
+        case 0: replay_file<int64_t, uint64_t>(g, f, (long)k); break;
+        case 1: replay_file<std::string, double>(g, f, (long)k); break;     // model weights 1..3 become 0.25 .. 0.75
+        case 2: replay_file<int64_t, float>(g, f, (long)k); break;
+        default: replay_file<std::string, int64_t>(g, f, (long)k);
+      }
     }
     segments = 0;
   }
   if (!rdir && wide == 0 && vt::argl(argc, argv, "--edge", 1)) {      // own generator: the random segments keep their streams
     vt::Rng ge(seed ^ 0xED6EULL);
-    if (seed % 2 == 0) { Driver<int64_t> d(ge, serde_pct); d.edge_segment(900); } else { Driver<std::string> d(ge, serde_pct); d.edge_segment(900); }
+    with_types(seed + 2, ge, serde_pct, [&](auto& d) { d.edge_segment(900); });     // + 2: quick seeds start with a signed W
   }
   for (long seg = 0; seg < segments; seg++) {
     bool b = seg < big;
-    if ((seg + seed) % 2 == 0) { Driver<int64_t> d(g, serde_pct); d.segment(seg, events, maxlg, b, wide != 0); }
-    else { Driver<std::string> d(g, serde_pct); d.segment(seg, events, maxlg, b, wide != 0); }
+    if (wide) {
+      if ((seg + seed) % 2 == 0) { Driver<int64_t> d(g, serde_pct); d.segment(seg, events, maxlg, b, true); }
+      else { Driver<std::string> d(g, serde_pct); d.segment(seg, events, maxlg, b, true); }
+    } else with_types((uint64_t)seg + seed, g, serde_pct, [&](auto& d) { d.segment(seg, events, maxlg, b, false); });
     g_wide = false;
   }
   for (long k = 0; k < slotadv && !rdir; k++) {
-    if ((k + seed) % 2 == 0) { Driver<int64_t> d(g, serde_pct); d.slot_segment(500 + k); }
-    else { Driver<std::string> d(g, serde_pct); d.slot_segment(500 + k); }
+    with_types((uint64_t)k + seed + 3, g, serde_pct, [&](auto& d) { d.slot_segment(500 + k); });
   }
   vt::close_out();
   fprintf(stderr, "fi_rec: %ld events\n", vt::g_events);
